@@ -31,10 +31,12 @@ def rule_wctx(prog, em):
         obs.append(bad('WCTX', 'WCTX|optype', 'anchor lost: public enum InfixOpType with variant SETTER not found'))
         return obs
     per_body = {}
+    body_of = {}
     for b, w in writers:
         per_body.setdefault(b.id, []).append(w)
+        body_of[b.id] = b
     for bid, ws in per_body.items():
-        b = prog.by_id[bid]
+        b = body_of[bid]
         key = 'WCTX|%s' % b.name
         problems = []
         if len(ws) != 1:
